@@ -999,3 +999,20 @@ Example ex_export_full :
   = Ok ([(0, 0, [10; 12])],
         mkOmeta (Some (Some 99, Some 7)) 5 2 [1; 2] []).
 Proof. vm_compute. reflexivity. Qed.
+
+(* ---- channel count -------------------------------------------------------------- *)
+Lemma chcount_spec (src : option Z) (nfl : Z) :
+  (forall c, src = Some c -> rectify_chcount src nfl = Some c)
+  /\ (src = None -> 0 < nfl -> rectify_chcount src nfl = Some nfl)
+  /\ (src = None -> nfl <= 0 -> rectify_chcount src nfl = None).
+Proof.
+  unfold rectify_chcount. repeat split.
+  - intros c ->. reflexivity.
+  - intros -> H. replace (0 <? nfl) with true by lia. reflexivity.
+  - intros -> H. replace (0 <? nfl) with false by lia. reflexivity.
+Qed.
+
+Example ex_chcount :
+  rectify_chcount (Some 3) (count_fl [5; 6; 7] [(6, 0, [1; 2])]) = Some 3
+  /\ rectify_chcount None (count_fl [5; 6; 7] [(6, 0, [1; 2]); (2, 0, [4])]) = Some 1.
+Proof. vm_compute. split; reflexivity. Qed.
